@@ -23,6 +23,8 @@ CHECKS = {
          "deterministic simulation: size-boundary workloads with deterministic buffer/decompression accounting at the seams"),
  "C11": ("exploration", "Hostile raw client requests, protocol-breaking scripted backends and transport faults (cuts, client gone, cancellation, handler panics, I/O after return) are drawn per run; no panic may escape ServeHTTP, the world must reach quiescence with all tasks finished, and the response-writer contract model must see one head and a consistent body.",
          "deterministic simulation with fault injection: seeded hostile workloads, quiescence-based termination and response-writer contract monitors"),
+ "C12": ("exploration", "The full boundary table of the three timeout encodings x four target protocols (plus seeded interior values and malformed strings) is run through the simulated world; three independent grammars with exact rational arithmetic decide never-extended / short-by-less-than-a-unit / never-rejected / malformed-not-dispatched. Schedules and faults play no role for this property; the simulator is the closed world and dispatch counter.",
+         "deterministic simulation used as closed-world harness: reference timeout grammars over an enumerated boundary table"),
  "C13": ("exploration", "Requests that need no conversion or match no endpoint are generated with arbitrary headers, query strings, declared lengths and protocol-invalid bodies under all segmentations and body faults; field-by-field and byte-by-byte identity is checked at the downstream handler and at the client, including flush pass-through.",
          "deterministic simulation with fault injection: identity oracle at both seams under seeded I/O schedules and body faults"),
  "C14": ("exploration", "2..6 RPCs (incl. full-duplex ones with reader and writer sub-tasks, and one-sided failures) share one Transcoder and pools under seeded uniform/PCT/sticky/starve schedules that switch tasks at every seam call; per-RPC solo-vs-concurrent differential, pool/compressor ownership monitor, and well-formedness of duplex responses under one-sided faults. Data races proper are not observed (one task runs at a time).",
